@@ -180,9 +180,10 @@ theorem dirS {ctx : Ctx κ} (g : Good ctx) {es : List (Name × Node κ)}
   · intro s'' hle'' k
     obtain ⟨o, ho, hb⟩ := hle'' (m.digest ctx) m (Store.get_put_self _ _ _)
     have hread : readManifest ctx s'' (m.digest ctx) = .ok (childrenOf ctx es) := by
-      rw [readManifest_of_bytes g ho (sch := .new) (p := nm) (cs := childrenOf ctx es) hb]
-      rw [map_reload_childrenOf ctx .new es
-        (fun e he sum isDir => (hn e.1 (mem_allNamesList_of_mem he)).2 .new sum isDir)]
+      have hmap := map_reload_childrenOf ctx .new es
+        (fun e he sum isDir => (hn e.1 (mem_allNamesList_of_mem he)).2.1 .new sum isDir)
+      rw [readManifest_of_bytes g ho (sch := .new) (p := nm) (cs := childrenOf ctx es) hb
+        (by rw [hmap]; exact childrenOK_childrenOf hn), hmap]
     have hfuel : depth (Node.dir es) + k = (depthList es + k) + 1 := by
       simp only [depth]; omega
     have hp := hu2 s'' (Store.le_trans hlep hle'') (depthList es + k) (by omega)
@@ -489,7 +490,7 @@ theorem store2_nodup : ManifestsNodup ctx2 store2 := by
     rcases hmem with ⟨rfl, rfl⟩ | ⟨rfl, rfl⟩ | ⟨rfl, rfl⟩
     · cases h
     · cases h
-    · simp only [Except.ok.injEq] at h; subst h; decide
+    · obtain ⟨rfl, -⟩ := checkedChildren_eq_ok h; decide
 end C05
 open C05 in
 -- (c): workspace in another order, one link and one copy; hypotheses hold, conclusion computed too
@@ -555,8 +556,8 @@ theorem C05.store_nodup : ManifestsNodup ctx store := by
     rcases hmem with ⟨rfl, rfl⟩ | ⟨rfl, rfl⟩ | ⟨rfl, rfl⟩ | ⟨rfl, rfl⟩
     · cases h
     · cases h
-    · simp only [Except.ok.injEq] at h; subst h; decide
-    · simp only [Except.ok.injEq] at h; subst h; decide
+    · obtain ⟨rfl, -⟩ := checkedChildren_eq_ok h; decide
+    · obtain ⟨rfl, -⟩ := checkedChildren_eq_ok h; decide
 open C05 in
 example : ∃ st, dirStatus ctx store 3 [] false "mmm"
     (some (.dir [([120], .file 0), ([115], .dir [([122], .file 1)])])) = .ok st ∧ st.cm = true :=
